@@ -23,6 +23,10 @@ import (
 //     tombstone test.  After the loop B is the largest index not deleted in
 //     this batch; lowering it further (e.g. to the largest live key of the
 //     batch) drops unchanged elements.
+//
+// Plain helpers called from the arm are followed: a resize inside a helper is
+// judged with the conditions at its (single) call site, and a trim bound may
+// be computed by a helper that returns its length parameter.
 
 func c10Leaves(e ast.Expr, op token.Token) []ast.Expr {
 	if be, ok := ast.Unparen(e).(*ast.BinaryExpr); ok && be.Op == op {
@@ -79,38 +83,367 @@ func c10Guards(f *kit.Func, n ast.Node, stop ast.Node) []c10Guard {
 	return out
 }
 
-func c10R8(c *kit.Ctx, m *c10Model) {
-	r8 := c.Rule("R8", "setter: the slice is shortened only by the trailing-tombstone trim", 3)
-	f := m.setter.f
-	info := f.Info()
-	cl := m.setter.labels()[reflect.Slice]
-	if cl == nil {
-		c.Fatalf("setter %s has no Slice arm", f.Name)
+// c10Frame is a region of a function analysed for R8: the Slice arm, or the
+// body of a plain helper entered through `call` in the parent frame.
+type c10Frame struct {
+	f      *kit.Func
+	root   ast.Node
+	parent *c10Frame
+	call   *ast.CallExpr
+}
+
+// argOf translates a parameter of the frame's function into the argument at
+// the call that entered the frame.
+func (fr *c10Frame) argOf(e ast.Expr) ast.Expr {
+	if fr.parent == nil || fr.call == nil {
+		return nil
 	}
-	mentionsObj := func(n ast.Node, o types.Object) bool {
-		hit := false
-		ast.Inspect(n, func(x ast.Node) bool {
-			if id, ok := x.(*ast.Ident); ok && info.Uses[id] == o {
-				hit = true
+	o := kit.ObjOf(fr.f.Info(), e)
+	if _, isIdent := ast.Unparen(e).(*ast.Ident); !isIdent || o == nil {
+		return nil
+	}
+	for i, p := range fr.f.Params() {
+		if types.Object(p) == o && i < len(fr.call.Args) {
+			return fr.call.Args[i]
+		}
+	}
+	if fr.f.Decl != nil && fr.f.Decl.Recv != nil && len(fr.f.Decl.Recv.List) == 1 && len(fr.f.Decl.Recv.List[0].Names) == 1 {
+		if fr.f.Info().Defs[fr.f.Decl.Recv.List[0].Names[0]] == o {
+			if sel, ok := ast.Unparen(fr.call.Fun).(*ast.SelectorExpr); ok {
+				return sel.X
+			}
+		}
+	}
+	return nil
+}
+
+func c10IsLenOf(f *kit.Func, e ast.Expr, X ast.Expr) bool {
+	call, ok := ast.Unparen(e).(*ast.CallExpr)
+	return ok && kit.RCallName(f.Info(), call) == "Value.Len" && kit.SameExpr(f.Info(), call.Fun.(*ast.SelectorExpr).X, X)
+}
+
+func c10Mentions(f *kit.Func, n ast.Node, o types.Object) bool {
+	hit := false
+	if n == nil {
+		return false
+	}
+	ast.Inspect(n, func(x ast.Node) bool {
+		if id, ok := x.(*ast.Ident); ok && f.Info().Uses[id] == o {
+			hit = true
+		}
+		return true
+	})
+	return hit
+}
+
+// c10GrowGuard looks for an enclosing condition that establishes T + c1 >= X.Len();
+// when the frame was entered through a call, the search continues at the call site.
+func c10GrowGuard(fr *c10Frame, at ast.Node, T ast.Expr, c1 int64, X ast.Expr) string {
+	f := fr.f
+	info := f.Info()
+	for _, gd := range c10Guards(f, at, fr.root) {
+		if gd.neg {
+			continue
+		}
+		for _, leaf := range c10Leaves(gd.cond, token.LAND) {
+			be, ok := leaf.(*ast.BinaryExpr)
+			if !ok {
+				continue
+			}
+			a, b, op := be.X, be.Y, be.Op
+			switch op {
+			case token.LSS:
+				a, b, op = b, a, token.GTR
+			case token.LEQ:
+				a, b, op = b, a, token.GEQ
+			}
+			if op != token.GTR && op != token.GEQ {
+				continue
+			}
+			ta, ca := c10PlusConst(info, a)
+			tb, cb := c10PlusConst(info, b)
+			if !kit.SameExpr(info, ta, T) || !c10IsLenOf(f, tb, X) {
+				continue
+			}
+			// T + ca (>|>=) Len + cb   ⇒   T + c1 >= Len + cb - ca + c1 (+1 if >)
+			slack := cb - ca + c1
+			if op == token.GTR {
+				slack++
+			}
+			if slack >= 0 {
+				return "`" + f.Str(leaf) + "` (" + f.At(leaf) + ")"
+			}
+		}
+	}
+	if fr.parent != nil {
+		T2, X2 := fr.argOf(T), fr.argOf(X)
+		if T2 != nil && X2 != nil {
+			t, ct := c10PlusConst(fr.parent.f.Info(), T2)
+			return c10GrowGuard(fr.parent, fr.call, t, c1+ct, X2)
+		}
+	}
+	return ""
+}
+
+type c10TrimVerdict struct {
+	initAt, bad, und string
+	ndefs            int
+	deleted          []ast.Expr // collections tested for membership (expressions of the frame)
+}
+
+// c10TrimDefs judges the definitions of trim bound B in frame fr; the slice is
+// cut to B + c1.  needInit: B must start as X.Len() - c1 inside the frame.
+func c10TrimDefs(fr *c10Frame, B *types.Var, c1 int64, X ast.Expr, needInit bool) c10TrimVerdict {
+	f := fr.f
+	info := f.Info()
+	var v c10TrimVerdict
+	seenD := map[types.Object]bool{}
+	ast.Inspect(f.Body, func(x ast.Node) bool {
+		var rhs ast.Expr
+		var stmt ast.Stmt
+		dec := false
+		switch y := x.(type) {
+		case *ast.AssignStmt:
+			for k, l := range y.Lhs {
+				if kit.ObjOf(info, l) != types.Object(B) {
+					continue
+				}
+				stmt = y
+				if len(y.Lhs) == len(y.Rhs) {
+					rhs = y.Rhs[k]
+				}
+				switch y.Tok {
+				case token.SUB_ASSIGN:
+					if c, ok := kit.ConstInt(info, y.Rhs[0]); ok && c == 1 {
+						dec = true
+					}
+				case token.ASSIGN, token.DEFINE:
+					if rhs != nil {
+						if t, cc := c10PlusConst(info, rhs); cc == -1 && kit.ObjOf(info, t) == types.Object(B) {
+							dec = true
+						}
+					}
+				}
+			}
+		case *ast.IncDecStmt:
+			if kit.ObjOf(info, y.X) == types.Object(B) {
+				stmt = y
+				dec = y.Tok == token.DEC
+			}
+		}
+		if stmt == nil {
+			return true
+		}
+		v.ndefs++
+		if as, ok := stmt.(*ast.AssignStmt); ok && as.Tok == token.DEFINE && !dec {
+			t, c0 := c10PlusConst(info, rhs)
+			switch {
+			case !needInit || X == nil || !c10IsLenOf(f, t, X):
+				v.und = fmt.Sprintf("trim bound %s starts from %s, not from Len()", B.Name(), f.Str(rhs))
+			case c0+c1 != 0:
+				v.bad = fmt.Sprintf("the trim bound starts at %s and the slice is cut to %s%+d: the length changes even when nothing was deleted", f.Str(rhs), B.Name(), c1)
+			default:
+				v.initAt = f.At(stmt)
 			}
 			return true
-		})
-		return hit
+		}
+		guards := c10Guards(f, stmt, fr.root)
+		member := ""
+		readsDeleted := false
+		// an int-slice element read in a guard may be a membership test in a
+		// shape not recognised here: then the verdict is "undecided"
+		for _, gd := range guards {
+			ast.Inspect(gd.cond, func(y ast.Node) bool {
+				if ix, ok := y.(*ast.IndexExpr); ok {
+					if sl, ok := info.TypeOf(ix.X).Underlying().(*types.Slice); ok {
+						if bt, ok := sl.Elem().Underlying().(*types.Basic); ok && bt.Info()&types.IsInteger != 0 {
+							readsDeleted = true
+						}
+					}
+				}
+				return true
+			})
+		}
+		for _, gd := range guards {
+			if gd.neg {
+				continue
+			}
+			for _, leaf := range c10Leaves(gd.cond, token.LAND) {
+				be, ok := leaf.(*ast.BinaryExpr)
+				if !ok || be.Op != token.EQL {
+					continue
+				}
+				for _, p := range [][2]ast.Expr{{be.X, be.Y}, {be.Y, be.X}} {
+					// the tested index must be the current last index: B + c1 - 1
+					t0, k0 := c10PlusConst(info, p[0])
+					if r := c10ResolveLocal(f, t0); r != t0 && kit.ObjOf(info, t0) != types.Object(B) {
+						t1, k1 := c10PlusConst(info, r)
+						t0, k0 = t1, k0+k1
+					}
+					if kit.ObjOf(info, t0) != types.Object(B) || k0 != c1-1 {
+						continue
+					}
+					ix, ok := ast.Unparen(p[1]).(*ast.IndexExpr)
+					if !ok {
+						continue
+					}
+					d, ok := kit.ObjOf(info, ix.X).(*types.Var)
+					if !ok || d.IsField() {
+						continue
+					}
+					if _, isSl := d.Type().Underlying().(*types.Slice); isSl {
+						member = f.Str(leaf)
+						if !seenD[d] {
+							seenD[d] = true
+							v.deleted = append(v.deleted, ix.X)
+						}
+					}
+				}
+			}
+		}
+		switch {
+		case dec && member != "":
+		case dec && !readsDeleted:
+			v.bad = fmt.Sprintf("%s at %s lowers the trim bound without testing that the last index is among the indexes tombstoned in this batch", f.Str(stmt), f.At(stmt))
+		case dec:
+			v.und = fmt.Sprintf("%s at %s: no `deleted[i] == <last index>` test encloses the decrement", f.Str(stmt), f.At(stmt))
+		default:
+			dependsOnDeleted := rhs != nil && c10Mentions(f, rhs, B)
+			for _, gd := range guards {
+				_ = gd
+			}
+			_, isConst := kit.ConstInt(info, rhs)
+			if rhs != nil && !dependsOnDeleted && !readsDeleted && !isConst {
+				hasSliceRead := false
+				ast.Inspect(rhs, func(y ast.Node) bool {
+					if _, ok := y.(*ast.IndexExpr); ok {
+						hasSliceRead = true
+					}
+					return true
+				})
+				if !hasSliceRead {
+					v.bad = fmt.Sprintf("`%s` at %s lowers the trim bound to a value that does not come from the indexes tombstoned in this batch: "+
+						"after the trim loop the bound is the last element the batch did not delete, and elements between %s and it are unchanged elements that a diff does not mention",
+						f.Str(stmt), f.At(stmt), f.Str(rhs))
+					return true
+				}
+			}
+			v.und = fmt.Sprintf("`%s` at %s assigns the trim bound", f.Str(stmt), f.At(stmt))
+		}
+		return true
+	})
+	return v
+}
+
+// c10DeletedPure checks that collection d (an expression of frame fr) receives
+// indexes only under a tombstone test; a parameter is followed to the caller.
+func c10DeletedPure(fr *c10Frame, d ast.Expr) (okMsg, bad, und string) {
+	f := fr.f
+	info := f.Info()
+	obj := kit.ObjOf(info, d)
+	if a := fr.argOf(d); a != nil {
+		return c10DeletedPure(fr.parent, a)
 	}
-	isLenOf := func(e ast.Expr, X ast.Expr) bool {
-		call, ok := ast.Unparen(e).(*ast.CallExpr)
-		return ok && kit.RCallName(info, call) == "Value.Len" && kit.SameExpr(info, call.Fun.(*ast.SelectorExpr).X, X)
+	if obj == nil {
+		return "", "", "deleted-index collection " + f.Str(d) + " is not a local variable"
 	}
-	// ---- resize sites
+	n := 0
+	ast.Inspect(f.Body, func(x ast.Node) bool {
+		as, ok := x.(*ast.AssignStmt)
+		if !ok {
+			return true
+		}
+		for k, l := range as.Lhs {
+			if kit.ObjOf(info, l) != obj || k >= len(as.Rhs) {
+				continue
+			}
+			rhs := ast.Unparen(as.Rhs[k])
+			if lit, ok := rhs.(*ast.CompositeLit); ok && len(lit.Elts) == 0 {
+				continue
+			}
+			call, ok := rhs.(*ast.CallExpr)
+			if b, isB := kit.Callee(info, call).(*types.Builtin); !ok || !isB || b.Name() != "append" || kit.ObjOf(info, call.Args[0]) != obj {
+				und = fmt.Sprintf("%s at %s", f.Str(as), f.At(as))
+				continue
+			}
+			n++
+			tomb, anyGuard := false, false
+			for _, gd := range c10Guards(f, as, f.Body) {
+				hasT := false
+				ast.Inspect(gd.cond, func(y ast.Node) bool {
+					if sel, ok := y.(*ast.SelectorExpr); ok && sel.Sel.Name == "Tombstone" && kit.IsNamedType(info.TypeOf(sel.X), kit.ModPath+"/data", "Point") {
+						hasT = true
+					}
+					return true
+				})
+				if hasT && !gd.neg {
+					tomb = true
+				}
+				if hasT || c10Mentions(f, gd.cond, obj) {
+					anyGuard = true
+				}
+			}
+			_ = anyGuard
+			switch {
+			case tomb:
+			default:
+				// no enclosing condition speaks about the point's tombstone
+				points := false
+				for _, gd := range c10Guards(f, as, f.Body) {
+					ast.Inspect(gd.cond, func(y ast.Node) bool {
+						if e, ok := y.(ast.Expr); ok && kit.IsNamedType(info.TypeOf(e), kit.ModPath+"/data", "Point") {
+							points = true
+						}
+						return true
+					})
+				}
+				if !points {
+					bad = fmt.Sprintf("%s at %s adds the index of every point, live ones included, to the deleted set: a live point at the end of the slice is trimmed away", f.Str(as), f.At(as))
+				} else {
+					und = fmt.Sprintf("%s at %s is not under a tombstone test", f.Str(as), f.At(as))
+				}
+			}
+		}
+		return true
+	})
+	if bad == "" && und == "" && n == 0 {
+		und = "nothing is ever appended to " + f.Str(d)
+	}
+	return fmt.Sprintf("%s in %s: %d append(s), each under a Tombstone test", f.Str(d), f.Name, n), bad, und
+}
+
+func c10R8(c *kit.Ctx, m *c10Model) {
+	r8 := c.Rule("R8", "setter: the slice is shortened only by the trailing-tombstone trim", 3)
+	cl := m.setter.labels()[reflect.Slice]
+	if cl == nil {
+		c.Fatalf("setter %s has no Slice arm", m.setter.f.Name)
+	}
+	// call sites of plain helpers (a helper with several call sites is entered without context)
+	nCalls := map[*kit.Func]int{}
+	for _, g := range c.P.Funcs("data") {
+		if g.Body == nil {
+			continue
+		}
+		for _, call := range g.AllCalls(false) {
+			if h := g.CalleeFunc(call); h != nil {
+				nCalls[h]++
+			}
+		}
+	}
 	type site struct {
+		fr   *c10Frame
 		call *ast.CallExpr
 		X    ast.Expr
 		n    ast.Expr
 		what string
 	}
 	var sites []site
-	for _, st := range cl.cc.Body {
-		ast.Inspect(st, func(x ast.Node) bool {
+	visited := map[*kit.Func]bool{}
+	var collect func(fr *c10Frame, region ast.Node, depth int)
+	collect = func(fr *c10Frame, region ast.Node, depth int) {
+		f := fr.f
+		info := f.Info()
+		ast.Inspect(region, func(x ast.Node) bool {
 			call, ok := x.(*ast.CallExpr)
 			if !ok {
 				return true
@@ -120,61 +453,119 @@ func c10R8(c *kit.Ctx, m *c10Model) {
 				X := call.Fun.(*ast.SelectorExpr).X
 				if a, ok := ast.Unparen(call.Args[0]).(*ast.CallExpr); ok && len(call.Args) == 1 {
 					if nm := kit.RCallName(info, a); (nm == "Value.Slice" || nm == "Value.Slice3") && kit.SameExpr(info, a.Fun.(*ast.SelectorExpr).X, X) {
-						sites = append(sites, site{call, X, a.Args[1], "Set(Slice)"})
+						sites = append(sites, site{fr, call, X, a.Args[1], "Set(Slice)"})
 					}
 				}
 			case "Value.SetLen":
-				sites = append(sites, site{call, call.Fun.(*ast.SelectorExpr).X, call.Args[0], "SetLen"})
+				sites = append(sites, site{fr, call, call.Fun.(*ast.SelectorExpr).X, call.Args[0], "SetLen"})
+			case "":
+				if h := f.CalleeFunc(call); h != nil && depth < 3 && c10IsPlainHelper(f, h) && h != m.decF && h != m.encF && !visited[h] {
+					visited[h] = true
+					child := &c10Frame{f: h, root: h.Body}
+					if nCalls[h] == 1 {
+						child.parent, child.call = fr, call
+					}
+					collect(child, h.Body, depth+1)
+				}
 			}
 			return true
 		})
 	}
-	if len(sites) == 0 {
-		c.Fatalf("setter %s: no resize of the slice (Set(Slice(0,n)) / SetLen) in the Slice arm: trailing deletions can no longer shrink it", f.Name)
+	top := &c10Frame{f: m.setter.f, root: cl.cc}
+	for _, st := range cl.cc.Body {
+		collect(top, st, 0)
 	}
-	deleted := map[types.Object]bool{}
+	if len(sites) == 0 {
+		c.Fatalf("setter %s: no resize of the slice (Set(Slice(0,n)) / SetLen) in the Slice arm or its helpers: trailing deletions can no longer shrink it", m.setter.f.Name)
+	}
+	type delRef struct {
+		fr *c10Frame
+		e  ast.Expr
+	}
+	var deleted []delRef
 	nTrim := 0
 	for i, s := range sites {
-		o := r8.Ob(f, s.call, fmt.Sprintf("resize #%d %s to %s", i+1, s.what, f.Str(s.n)), "the new length is above Len(), or the trim bound lowered only for indexes tombstoned in this batch")
+		fr := s.fr
+		f := fr.f
+		info := f.Info()
+		where := ""
+		if fr != top {
+			where = " in " + f.Name
+		}
+		o := r8.Ob(f, s.call, fmt.Sprintf("resize #%d %s to %s%s", i+1, s.what, f.Str(s.n), where), "the new length is above Len(), or the trim bound lowered only for indexes tombstoned in this batch")
 		T, c1 := c10PlusConst(info, s.n)
-		// growing: an enclosing condition establishes T + c1 > Len
-		grow := ""
-		for _, gd := range c10Guards(f, s.call, cl.cc) {
-			if gd.neg {
+		if g := c10GrowGuard(fr, s.call, T, c1, s.X); g != "" {
+			o.OK("never shortens: guarded by %s", g)
+			continue
+		}
+		// trim bound computed by a helper that returns its length parameter
+		if kcall, ok := ast.Unparen(T).(*ast.CallExpr); ok {
+			k := f.CalleeFunc(kcall)
+			if k == nil || !c10IsPlainHelper(f, k) {
+				o.Undecided("cannot tell whether the new length %s is below Len()", f.Str(s.n))
 				continue
 			}
-			for _, leaf := range c10Leaves(gd.cond, token.LAND) {
-				be, ok := leaf.(*ast.BinaryExpr)
-				if !ok {
-					continue
+			kfr := &c10Frame{f: k, root: k.Body, parent: fr, call: kcall}
+			var P *types.Var
+			same := true
+			nret := 0
+			ast.Inspect(k.Body, func(x ast.Node) bool {
+				if _, isLit := x.(*ast.FuncLit); isLit {
+					return false
 				}
-				a, b, op := be.X, be.Y, be.Op
-				switch op {
-				case token.LSS:
-					a, b, op = b, a, token.GTR
-				case token.LEQ:
-					a, b, op = b, a, token.GEQ
+				if r, ok := x.(*ast.ReturnStmt); ok {
+					nret++
+					if len(r.Results) != 1 {
+						same = false
+						return true
+					}
+					v, _ := kit.ObjOf(k.Info(), r.Results[0]).(*types.Var)
+					if _, isIdent := ast.Unparen(r.Results[0]).(*ast.Ident); !isIdent || v == nil || (P != nil && v != P) {
+						same = false
+					}
+					P = v
 				}
-				if op != token.GTR && op != token.GEQ {
-					continue
-				}
-				ta, ca := c10PlusConst(info, a)
-				tb, cb := c10PlusConst(info, b)
-				if !kit.SameExpr(info, ta, T) || !isLenOf(tb, s.X) {
-					continue
-				}
-				// T + ca (>|>=) Len + cb   ⇒   T + c1 >= Len + cb - ca + c1 (+1 if >)
-				slack := cb - ca + c1
-				if op == token.GTR {
-					slack++
-				}
-				if slack >= 0 {
-					grow = f.Str(leaf)
+				return true
+			})
+			var arg ast.Expr
+			if P != nil {
+				arg = kfr.argOf(ast.NewIdent(P.Name()))
+				for i, p := range k.Params() {
+					if p == P && i < len(kcall.Args) {
+						arg = kcall.Args[i]
+					}
 				}
 			}
-		}
-		if grow != "" {
-			o.OK("never shortens: guarded by `%s`", grow)
+			if !same || P == nil || nret == 0 || arg == nil {
+				o.Undecided("the new length is computed by %s, which does not simply return its length parameter", k.Name)
+				continue
+			}
+			// the parameter starts as X.Len() - c1 at the call
+			t, c0 := c10PlusConst(info, c10ResolveLocal(f, arg))
+			if te, ce := c10PlusConst(info, arg); !c10IsLenOf(f, t, s.X) {
+				t, c0 = te, ce
+			}
+			switch {
+			case !c10IsLenOf(f, t, s.X):
+				o.Undecided("%s is called with %s, which is not Len() of the slice", k.Name, f.Str(arg))
+				continue
+			case c0+c1 != 0:
+				o.Violation("%s starts from %s and the slice is cut to its result%+d: the length changes even when nothing was deleted", k.Name, f.Str(arg), c1)
+				continue
+			}
+			v := c10TrimDefs(kfr, P, c1, nil, false)
+			switch {
+			case v.bad != "":
+				o.Violation("%s", v.bad)
+			case v.und != "":
+				o.Undecided("%s", v.und)
+			default:
+				nTrim++
+				for _, d := range v.deleted {
+					deleted = append(deleted, delRef{kfr, d})
+				}
+				o.OK("trim through %s: its length parameter starts as %s; %d definitions, each a decrement under a `deleted[i] == <last index>` test", k.Name, f.Str(arg), v.ndefs)
+			}
 			continue
 		}
 		B, _ := kit.ObjOf(info, T).(*types.Var)
@@ -187,11 +578,11 @@ func c10R8(c *kit.Ctx, m *c10Model) {
 				ast.Inspect(n, func(x ast.Node) bool {
 					switch y := x.(type) {
 					case *ast.CallExpr:
-						if isLenOf(y, s.X) {
+						if c10IsLenOf(f, y, s.X) {
 							hit = true
 						}
 					case *ast.Ident:
-						if o := info.Uses[y]; o != nil && lenVars[o] {
+						if ob := info.Uses[y]; ob != nil && lenVars[ob] {
 							hit = true
 						}
 					}
@@ -217,8 +608,8 @@ func c10R8(c *kit.Ctx, m *c10Model) {
 					return true
 				})
 			}
-			related := hasLen(s.n)
-			for _, gd := range c10Guards(f, s.call, cl.cc) {
+			related := hasLen(s.n) || fr != top
+			for _, gd := range c10Guards(f, s.call, fr.root) {
 				related = related || hasLen(gd.cond)
 			}
 			if related {
@@ -228,192 +619,47 @@ func c10R8(c *kit.Ctx, m *c10Model) {
 			}
 			continue
 		}
-		// definitions of B
-		var initOK, bad, und string
-		ndefs := 0
-		ast.Inspect(f.Body, func(x ast.Node) bool {
-			var rhs ast.Expr
-			var stmt ast.Stmt
-			dec := false
-			switch y := x.(type) {
-			case *ast.AssignStmt:
-				for k, l := range y.Lhs {
-					if kit.ObjOf(info, l) != B {
-						continue
-					}
-					stmt = y
-					if len(y.Lhs) == len(y.Rhs) {
-						rhs = y.Rhs[k]
-					}
-					switch y.Tok {
-					case token.SUB_ASSIGN:
-						if v, ok := kit.ConstInt(info, y.Rhs[0]); ok && v == 1 {
-							dec = true
-						}
-					case token.ASSIGN, token.DEFINE:
-						if rhs != nil {
-							if t, cc := c10PlusConst(info, rhs); cc == -1 && kit.ObjOf(info, t) == B {
-								dec = true
-							}
-						}
-					}
-				}
-			case *ast.IncDecStmt:
-				if kit.ObjOf(info, y.X) == B {
-					stmt = y
-					dec = y.Tok == token.DEC
-				}
+		// a parameter of a helper: nothing is known about it here
+		isParam := false
+		for _, p := range f.Params() {
+			if p == B {
+				isParam = true
 			}
-			if stmt == nil {
-				return true
-			}
-			ndefs++
-			if as, ok := stmt.(*ast.AssignStmt); ok && as.Tok == token.DEFINE && !dec {
-				t, c0 := c10PlusConst(info, rhs)
-				switch {
-				case !isLenOf(t, s.X):
-					und = fmt.Sprintf("trim bound %s starts from %s, not from Len()", B.Name(), f.Str(rhs))
-				case c0+c1 != 0:
-					bad = fmt.Sprintf("the trim bound starts at %s and the slice is cut to %s: the length changes even when nothing was deleted", f.Str(rhs), f.Str(s.n))
-				default:
-					initOK = f.At(stmt)
-				}
-				return true
-			}
-			guards := c10Guards(f, stmt, cl.cc)
-			member := ""
-			readsDeleted := false
-			for _, gd := range guards {
-				for _, leaf := range c10Leaves(gd.cond, token.LAND) {
-					be, ok := leaf.(*ast.BinaryExpr)
-					if ok && be.Op == token.EQL && !gd.neg {
-						for _, p := range [][2]ast.Expr{{be.X, be.Y}, {be.Y, be.X}} {
-							if kit.ObjOf(info, p[0]) != B {
-								continue
-							}
-							if ix, ok := ast.Unparen(p[1]).(*ast.IndexExpr); ok {
-								if d, ok := kit.ObjOf(info, ix.X).(*types.Var); ok && !d.IsField() {
-									if _, isSl := d.Type().Underlying().(*types.Slice); isSl {
-										deleted[d] = true
-										member = f.Str(leaf)
-									}
-								}
-							}
-						}
-					}
-				}
-			}
-			for _, gd := range guards {
-				for d := range deleted {
-					if mentionsObj(gd.cond, d) {
-						readsDeleted = true
-					}
-				}
-			}
-			switch {
-			case dec && member != "":
-				// fine
-			case dec && !readsDeleted:
-				bad = fmt.Sprintf("%s at %s lowers the trim bound without testing that the last index is among the indexes tombstoned in this batch", f.Str(stmt), f.At(stmt))
-			case dec:
-				und = fmt.Sprintf("%s at %s: no `deleted[i] == %s` test encloses the decrement", f.Str(stmt), f.At(stmt), B.Name())
-			default:
-				// B = E
-				dependsOnDeleted := rhs != nil && mentionsObj(rhs, B)
-				for d := range deleted {
-					if rhs != nil && mentionsObj(rhs, d) {
-						dependsOnDeleted = true
-					}
-				}
-				_, isConst := kit.ConstInt(info, rhs)
-				if rhs != nil && !dependsOnDeleted && !readsDeleted && !isConst {
-					bad = fmt.Sprintf("`%s` at %s lowers the trim bound to a value that does not come from the indexes tombstoned in this batch: "+
-						"after the trim loop the bound is the last element the batch did not delete, and elements between %s and it are unchanged elements that a diff does not mention",
-						f.Str(stmt), f.At(stmt), f.Str(rhs))
-				} else {
-					und = fmt.Sprintf("`%s` at %s assigns the trim bound", f.Str(stmt), f.At(stmt))
-				}
-			}
-			return true
-		})
+		}
+		if isParam {
+			o.Undecided("the new length %s is a parameter of %s and no condition at the call site establishes that it is above Len()", B.Name(), f.Name)
+			continue
+		}
+		v := c10TrimDefs(fr, B, c1, s.X, true)
 		switch {
-		case bad != "":
-			o.Violation("%s", bad)
-		case und != "":
-			o.Undecided("%s", und)
-		case initOK == "":
-			o.Undecided("no `%s := Len()-1` definition of the trim bound found", B.Name())
+		case v.bad != "":
+			o.Violation("%s", v.bad)
+		case v.und != "":
+			o.Undecided("%s", v.und)
+		case v.initAt == "":
+			o.Undecided("no `%s := Len()%+d` definition of the trim bound found", B.Name(), -c1)
 		default:
 			nTrim++
-			o.OK("trim: %s starts at Len()%+d (%s); %d later definitions, each a decrement under a `deleted[i] == %s` test", B.Name(), -c1, initOK, ndefs-1, B.Name())
+			for _, d := range v.deleted {
+				deleted = append(deleted, delRef{fr, d})
+			}
+			o.OK("trim: %s starts at Len()%+d (%s); %d later definitions, each a decrement under a `deleted[i] == <last index>` test", B.Name(), -c1, v.initAt, v.ndefs-1)
 		}
 	}
 	// ---- the deleted collection receives indexes only under a tombstone test
-	if len(deleted) == 0 {
-		if nTrim > 0 {
-			c.Fatalf("setter %s: trim without a deleted-index collection", f.Name)
-		}
-		return
+	if len(deleted) == 0 && nTrim > 0 {
+		c.Fatalf("setter %s: trim without a deleted-index collection", m.setter.f.Name)
 	}
-	for d := range deleted {
-		o := r8.Ob(f, nil, "deleted-index collection "+d.Name(), "indexes are added only for points whose tombstone test holds")
-		o.Site = c.P.Pos(d.Pos())
-		var bad, und string
-		n := 0
-		ast.Inspect(f.Body, func(x ast.Node) bool {
-			as, ok := x.(*ast.AssignStmt)
-			if !ok {
-				return true
-			}
-			for k, l := range as.Lhs {
-				if kit.ObjOf(info, l) != d || k >= len(as.Rhs) {
-					continue
-				}
-				rhs := ast.Unparen(as.Rhs[k])
-				if lit, ok := rhs.(*ast.CompositeLit); ok && len(lit.Elts) == 0 {
-					continue
-				}
-				call, ok := rhs.(*ast.CallExpr)
-				if b, isB := kit.Callee(info, call).(*types.Builtin); !ok || !isB || b.Name() != "append" || kit.ObjOf(info, call.Args[0]) != d {
-					und = fmt.Sprintf("%s at %s", f.Str(as), f.At(as))
-					continue
-				}
-				n++
-				tomb, anyGuard := false, false
-				for _, gd := range c10Guards(f, as, cl.cc) {
-					hasT := false
-					ast.Inspect(gd.cond, func(y ast.Node) bool {
-						if sel, ok := y.(*ast.SelectorExpr); ok && sel.Sel.Name == "Tombstone" && kit.IsNamedType(info.TypeOf(sel.X), kit.ModPath+"/data", "Point") {
-							hasT = true
-						}
-						return true
-					})
-					if hasT && !gd.neg {
-						tomb = true
-					}
-					if _, isLoop := gd.cond.(*ast.CallExpr); !isLoop {
-						anyGuard = true
-					}
-				}
-				switch {
-				case tomb:
-				case !anyGuard:
-					bad = fmt.Sprintf("%s at %s adds the index of every point, live ones included, to the deleted set: a live point at the end of the slice is trimmed away", f.Str(as), f.At(as))
-				default:
-					und = fmt.Sprintf("%s at %s is not under a tombstone test", f.Str(as), f.At(as))
-				}
-			}
-			return true
-		})
+	for _, d := range deleted {
+		o := r8.Ob(d.fr.f, d.e, "deleted-index collection "+d.fr.f.Str(d.e), "indexes are added only for points whose tombstone test holds")
+		okMsg, bad, und := c10DeletedPure(d.fr, d.e)
 		switch {
 		case bad != "":
 			o.Violation("%s", bad)
 		case und != "":
 			o.Undecided("%s", und)
-		case n == 0:
-			o.Undecided("nothing is ever appended to %s", d.Name())
 		default:
-			o.OK("%d append(s), each under a Tombstone test", n)
+			o.OK("%s", okMsg)
 		}
 	}
 }
